@@ -729,6 +729,7 @@ func (db *DB) rollbackJournalSegment(ctx context.Context, r *JournalReader, dbFi
 		// record checksum only samples a few bytes, so arbitrary journal
 		// content can otherwise name any page up to 2^32-1.
 		if pgno == 0 {
+			r.done = true
 			return nil
 		} else if pgno > r.commit {
 			continue
@@ -3742,6 +3743,7 @@ type JournalReader struct {
 	frame  []byte      // frame buffer
 
 	isValid    bool   // true, if at least one valid header exists
+	done       bool   // true, once an invalid record has ended the playback
 	frameN     int32  // Number of pages in the segment
 	nonce      uint32 // A random nonce for the checksum
 	commit     uint32 // Initial size of the database in pages
@@ -3767,6 +3769,13 @@ func (r *JournalReader) IsValid() bool { return r.isValid }
 
 // Next reads the next segment of the journal. Returns io.EOF if no more segments exist.
 func (r *JournalReader) Next() (err error) {
+	// Like SQLite, stop the playback for good at the first record that is not
+	// valid. Whatever follows it, e.g. a segment header left over from an
+	// earlier transaction in PERSIST mode, does not belong to this journal.
+	if r.done {
+		return io.EOF
+	}
+
 	// Determine journal size on initial call.
 	if r.fi == nil {
 		if r.fi, err = r.f.Stat(); err != nil {
@@ -3861,7 +3870,8 @@ func (r *JournalReader) ReadFrame() (pgno uint32, data []byte, err error) {
 
 	// Read the next frame from the journal.
 	n, err := internal.ReadFullAt(r.f, r.frame, r.offset)
-	if err == io.ErrUnexpectedEOF {
+	if err == io.EOF || err == io.ErrUnexpectedEOF {
+		r.done = true
 		return 0, nil, io.EOF
 	} else if err != nil {
 		return 0, nil, err
@@ -3872,6 +3882,7 @@ func (r *JournalReader) ReadFrame() (pgno uint32, data []byte, err error) {
 	chksum := binary.BigEndian.Uint32(r.frame[len(r.frame)-4:])
 
 	if chksum != JournalChecksum(data, r.nonce) {
+		r.done = true
 		return 0, nil, io.EOF
 	}
 
